@@ -225,7 +225,7 @@ def section_parse(ctx) -> None:
                 break
     ctx.extra['parse_outcomes'] = {f'{a}/{b}': n for (a, b), n in sorted(hist.items())}
     ctx.sample({'parse_case': [keep[-1][0].decode('latin-1'), repr(keep[-1][2])]})
-    bad = ctx.run_cases('parse_command', HEADER, 'parse_case', terms, 'chk_parse', shard=150)
+    bad = ctx.run_cases('parse_command', HEADER, 'parse_case', terms, 'chk_parse', shard=400)
     for i in bad[:8]:
         line, conts, e = keep[i]
         model = coq_parse(ctx, line, conts)
